@@ -143,7 +143,19 @@ def r_same_result(repo, rep, R='R12.3'):
                 rep.violation(R, w, key + ':constant-label', 'binary node is labelled with the constant %s' % show(ops))
             else:
                 rep.violation(R, w, key + ':label', 'binary node label %s is not taken from a rule result' % show(ops)[:80])
-    rep.floor('Tree.make_binary call sites in readers', n, 5)
+    # instances: one per reader routine that builds binary nodes -- a node builder shared by several routines counts once
+    # for each routine calling it
+    routes = 0
+    for mod, fn, node in sites:
+        callers = set()
+        if isinstance(getattr(fn, '_parent', None), ast.Module):
+            for c in ast.walk(mod.tree):
+                if isinstance(c, ast.Call) and isinstance(c.func, ast.Name) and c.func.id == fn.name:
+                    ef = enclosing_function(c)
+                    if ef is not None and ef is not fn:
+                        callers.add(id(ef))
+        routes += max(1, len(callers))
+    rep.floor('reader routines building binary nodes through Tree.make_binary', routes, 5)
     # readers select the active grammar's rule function
     for rel in READER_FILES:
         mod = repo.module(rel)
